@@ -26,6 +26,7 @@ type SCtx struct {
 	pkg        *types.Package
 	depth      int
 	atBlock    *ssa.BasicBlock // program point for binding source-level locals
+	atSt       *State          // inside atcall(...): the state recorded before that call
 }
 
 var mathInt = types.Typ[types.UntypedInt]
@@ -49,6 +50,9 @@ func (g *Gen) specCtxVars(st, old *State, vars map[string]Val) *SCtx {
 func (sc *SCtx) state() *State {
 	if sc.inOld {
 		return sc.old
+	}
+	if sc.atSt != nil {
+		return sc.atSt
 	}
 	return sc.st
 }
@@ -1072,6 +1076,35 @@ func (sc *SCtx) call(x *ECall) (Val, error) {
 			return scalar(g.errIs(a.T, b.T), types.Typ[types.Bool]), nil
 		case "seen":
 			return sc.seen(x)
+		case "atcall":
+			// atcall("Callee", k, e): e in the state just before the k-th call of Callee
+			// (in generation order) — names a point inside the body, e.g. the moment a
+			// lock was taken
+			if len(x.Args) != 3 {
+				return Val{}, fmt.Errorf("atcall takes (\"callee\", ordinal, expr)")
+			}
+			nm, ok1 := x.Args[0].(*EStrL)
+			on, ok2 := x.Args[1].(*EInt)
+			if !ok1 || !ok2 {
+				return Val{}, fmt.Errorf("atcall takes (\"callee\", ordinal, expr)")
+			}
+			ord, _ := strconv.Atoi(on.V)
+			var sts []*State
+			hits := 0
+			for k, v := range g.callStates {
+				if k == nm.V || strings.HasSuffix(k, "."+nm.V) || strings.HasSuffix(k, "/"+nm.V) {
+					sts = v
+					hits++
+				}
+			}
+			if hits != 1 || ord >= len(sts) {
+				return Val{}, fmt.Errorf("atcall: call %s#%d not seen before this point (%d callees match)", nm.V, ord, hits)
+			}
+			saved := sc.atSt
+			sc.atSt = sts[ord]
+			v, err := sc.eval(x.Args[2])
+			sc.atSt = saved
+			return v, err
 		case "as":
 			// as(x, T): the interface value x viewed as its concrete type T
 			if len(x.Args) != 2 {
